@@ -120,7 +120,7 @@ def write_cfg(path, base_lines, consts):
 
 
 def tla_set(xs):
-    return "{" + ", ".join('"%s"' % x if isinstance(x, str) else str(x).upper() if isinstance(x, bool) else str(x) for x in xs) + "}"
+    return "{" + ", ".join('"%s"' % x if isinstance(x, str) else ("TRUE" if x else "FALSE") if isinstance(x, bool) else str(x) for x in xs) + "}"
 
 
 def parse_hist_lines(out):
@@ -159,7 +159,9 @@ def to_harness_histories(hs, start_id=1, defaults=None):
                 cfg.update({k: v for k, v in op.items() if k != "op"})
             else:
                 ops.append(op)
-        rec = {"id": start_id + i, "fee": cfg.get("fee", 0), "mpp": cfg.get("mpp", False),
+        lim = cfg.get("limits") or {}
+        cfg["limits"] = {k: v for k, v in lim.items()} if isinstance(lim, dict) else {}
+        rec = {"id": start_id + i, "fee": cfg.get("fee", 0), "mpp": bool(cfg.get("mpp", False)),
                "policy": cfg.get("policy", "pct1"), "limits": cfg.get("limits", {}), "probe": cfg.get("probe", "all"), "malformed": cfg.get("malformed", 0), "http": cfg.get("http", False),
                "ops": ops}
         res.append(rec)
